@@ -43,6 +43,10 @@ CHECKS = {
     "C18": simbus("C18", RULE % "C18 (name / unicast / broadcast / reply traffic with 0-3 connections becoming monitors at arbitrary points — while owning or queued for names, with calls outstanding — with empty or selective filters, privileged and unprivileged, under allow-all, requested-replies-only and message-refusing policies)",
                   probes=["became_monitor", "became_monitor_while_owning", "became_monitor_while_queued", "became_monitor_with_calls_outstanding", "become_monitor_denied",
                           "monitor_captured_bus_message", "monitor_captured_client_message", "bus_message_refused_by_receive_policy", "unicast_refused", "dest_missing"], safety_prop="C10"),
+    "C14": dict(simbus("C14", "for each sampled (history, operation) pair generated from mix(VERIF_SEED, i): one fault-free execution counts the allocations n the bus makes while processing the "
+                  "operation, then the whole plan is re-executed n times with allocation k = 0..n-1 of that operation failing (exhaustive in k, sampled in history and operation); an "
+                  "evaluation is one (history, operation, k) execution; distinct = distinct trace hash; non-trivial = the injected failure fired and the outcome was compared with both admissible worlds",
+                  probes=["oom_outcome_complete", "oom_outcome_nomemory", "oom_retried", "h2_retry_after_oom"], safety_prop="C14", level="fault_enumeration"), max_runs=None),
 }
 
 # ----------------------------------------------------------------------------- MANIFEST texts
